@@ -164,10 +164,11 @@ def run_engine(ctx, binpath, test, cases, tag):
 
 
 EXTRACT_V = """From Coq Require Import Extraction ExtrOcamlBasic List NArith.
-From Verif Require Import Trie.Model Trie.Proof%s.
+From Verif Require Import Trie.Model Trie.Proof Trie.BatchModel%s.
 Extraction Language OCaml.
 Extraction "trie_model.ml" trie_update get root bytes_to_bits mproof compress
-  verify_inclusion verify_non_inclusion verify_inclusion_c verify_non_inclusion_c%s.
+  verify_inclusion verify_non_inclusion verify_inclusion_c verify_non_inclusion_c
+  trie_update_b commit_store serialize_batch parse_batch abs_batch_store%s.
 """
 
 
@@ -175,7 +176,7 @@ def build_driver(ctx, extra_import="", extra_syms=""):
     """Extract the model (ExtrOcamlBasic only) and build the OCaml driver in build/<id>/coq."""
     import shutil
     import vf
-    rc, out = ctx.coq_make(["Trie/Proof.vo"])
+    rc, out = ctx.coq_make(["Trie/Proof.vo", "Trie/BatchModel.vo"])
     if rc != 0:
         return None, "coq/Trie/Proof.v does not build: " + out[-1500:]
     rc, out = ctx.coq_eval("extract_trie", EXTRACT_V % (extra_import, extra_syms), timeout=600)
@@ -208,9 +209,15 @@ def hx_or_dash(s):
 def driver_case_text(c, o):
     """C10 records of one case (see harness/engines/trie/driver.ml)."""
     lines = ["Q " + " ".join(c["q"])]
-    for b, r, g in zip(c["batches"], o["roots"], o["gets"]):
+    blevel = bool(c.get("dump")) and o.get("upd") and all(b["commit"] for b in c["batches"])
+    if blevel:
+        lines.append("L %d" % (1 if c.get("atomic") else 0))
+    for bi, (b, r, g) in enumerate(zip(c["batches"], o["roots"], o["gets"])):
         lines.append("B " + " ".join("%s %s" % (k, "-" if v == DEFAULT else v) for k, v in zip(b["k"], b["v"])))
         lines.append("O " + hx_or_dash(r) + " " + " ".join(hx_or_dash(x) for x in g))
+        if blevel:
+            lines.append("U " + " ".join("%s:%s" % (k, v) for k, v in o["upd"][bi]))
+            lines.append("C")
     return lines
 
 
